@@ -22,8 +22,12 @@ type Ctx struct {
 	samples                  []any
 	wantSample               bool
 	transcript               uint64
+	extraEvals               int
 	hasTranscript            bool
 }
+
+// AddEvaluations counts additional executions performed inside this case (e.g. twin worlds).
+func (c *Ctx) AddEvaluations(n int) { c.extraEvals += n }
 
 // Transcript records the case's transcript hash for cross-process comparison.
 func (c *Ctx) Transcript(h uint64) { c.transcript, c.hasTranscript = h, true }
@@ -149,7 +153,7 @@ func DrvMain(a *Args) int {
 			prog.WriteAt([]byte(fmt.Sprintf("%-12s", strconv.Itoa(i))), 0)
 		}
 		c := runCase(a, fn, i, len(rep.Samples) < 2)
-		rep.Evaluations++
+		rep.Evaluations += 1 + c.extraEvals
 		rep.Cov.Merge(c.Cov)
 		if c.hasTranscript {
 			if rep.Transcripts == nil {
